@@ -390,6 +390,7 @@ impl Harness for C03 {
             "variance/std: population variance; the spread-relative accuracy (1e-6 f64, 1e-2 f32) is demanded only when |mean|/std <= 1e8 (f64) / 4e3 (f32) and the spread is non-zero; otherwise formula-level accuracy 8 n eps (mean^2+var)".into(),
             "norm(p) is the entry-wise p-norm, softmax normalises over all entries, unique returns the sorted distinct values, argmax accepts any maximiser of a row (ties in the library's favour)".into(),
             "dot of a 1xN with an Nx1 may be rejected or return the inner product; max_diff is not required to reject incompatible operands (not listed in the statement)".into(),
+            "DenseMatrix `==` is implemented with the absolute tolerance T::epsilon() (|a-b| > eps <=> different): taken as given; on the adjacent-floats family `==` is judged only for identical operands and for operands that differ by more than T::epsilon(); approximate_eq(error) is the formula max|a-b| <= error, judged exactly; the tolerance of the means carries + the smallest subnormal (rounding of a division in the subnormal range)".into(),
             "no RNG draw on any explored path (DenseMatrix::rand is not called); HashMap is not involved".into(),
         ]
     }
